@@ -49,6 +49,19 @@ type vStore struct {
 	renames []string
 }
 
+// like the operating system: a path whose last component is longer than 255 bytes cannot be looked up at all
+type vNameTooLong struct{}
+
+func (vNameTooLong) Error() string { return "file name too long" }
+
+func vBaseTooLong(name string) bool {
+	n := 0
+	for i := len(name) - 1; i >= 0 && name[i] != '/'; i-- {
+		n++
+	}
+	return n > 255
+}
+
 func (s *vStore) find(name string) int {
 	for i, n := range s.names {
 		if n == name {
@@ -58,6 +71,9 @@ func (s *vStore) find(name string) int {
 	return -1
 }
 func (s *vStore) Stat(name string) (fs.FileInfo, error) {
+	if vBaseTooLong(name) {
+		return nil, vNameTooLong{}
+	}
 	for i, n := range s.names {
 		if n == name {
 			return &vInfo{name: "target.txt", size: int64(len(s.data[i]))}, nil
@@ -66,6 +82,9 @@ func (s *vStore) Stat(name string) (fs.FileInfo, error) {
 	return nil, fs.ErrNotExist
 }
 func (s *vStore) Open(name string) (*os.File, error) {
+	if vBaseTooLong(name) {
+		return nil, vNameTooLong{}
+	}
 	for i, n := range s.names {
 		if n == name {
 			f := new(os.File)
@@ -76,6 +95,9 @@ func (s *vStore) Open(name string) (*os.File, error) {
 	return nil, fs.ErrNotExist
 }
 func (s *vStore) ReadFile(name string) ([]byte, error) {
+	if vBaseTooLong(name) {
+		return nil, vNameTooLong{}
+	}
 	for i, n := range s.names {
 		if n == name {
 			return s.data[i], nil
